@@ -418,6 +418,19 @@ def plot_cases(tier):
                 if gi == 0:
                     C.append(dict(r=r, c=c, bits=bits, ul=ul, vals=bool(k % 5 == 0), mk="L", pred=[a], as_array=bool((k + 1) % 2)))
                     C.append(dict(r=r, c=c, bits=bits, ul=ul, vals=False, mk="L", true=d))
+    # 5b. paths that visit a cell more than once (into a dead end and back, a back-stepping prediction): every listed cell is drawn, in order
+    for (r, c), bits in (((2, 2), 15), ((3, 3), R.n_graphs(3, 3) - 1), ((2, 3), R.trees(2, 3)[3])):
+        full = R.adjacency(R.graph_from_bits(r, c, R.n_graphs(r, c) - 1))
+        walks = []
+        for s0 in R.cells(r, c)[:4]:
+            for p in R.simple_paths(full, s0, 3):
+                if len(p) == 3:
+                    walks.append([list(p[0]), list(p[1]), list(p[0]), list(p[1]), list(p[2])])   # step back and forth
+                    walks.append([list(p[0]), list(p[1]), list(p[2]), list(p[1]), list(p[0])])   # out and all the way back
+        for k, w in enumerate(walks[:: (3 if quick else 1)]):
+            ul = ULS[k % 4]
+            C.append(dict(r=r, c=c, bits=bits, ul=ul, vals=False, mk="L", true=w, as_array=bool(k % 2), revisit=True))
+            C.append(dict(r=r, c=c, bits=bits, ul=ul, vals=False, mk="L", pred=[w, walks[(k + 5) % len(walks)]], as_array=bool((k + 1) % 2), revisit=True))
     # 6. solved mazes whose STORED solution is not what a solver would return: every simple path of every cyclic 2x2 / some 3x3 graphs
     for (r, c), graphs in (((2, 2), [15, 7, 11, 13, 14]), ((3, 3), [R.n_graphs(3, 3) - 1] if quick else [R.n_graphs(3, 3) - 1, (R.n_graphs(3, 3) - 1) ^ 5])):
         for gi, bits in enumerate(graphs):
